@@ -235,8 +235,46 @@ func cmdCheck(args []string) {
 	bySolver := map[string]int{}
 	solverTime := 0.0
 	kfUsed := map[int]bool{}
+	// Loop drift: a loop header no longer reads as the contract recorded it.  The annotations were
+	// attached by ordinal all the same.  If every invariant and measure of the unit still verifies,
+	// the proof of the unit is as good as any other and its failures count; if one of them does
+	// not, the annotations do not fit the new loop and nothing about the unit is decided.
+	loopDrift := map[string][]string{}
+	for _, r := range results {
+		if len(r.LoopDrift) > 0 {
+			loopDrift[r.Unit] = r.LoopDrift
+		}
+		for _, d := range r.Dropped {
+			fmt.Printf("NOTE: property=%s %s: %s; the rest of the contract must hold without them\n", *prop, r.Unit, d)
+		}
+		for _, d := range r.AssertDrift {
+			drift = append(drift, "(this assertion only; the rest of the function is verified) "+d)
+		}
+	}
+	invBroken := map[string]bool{}
+	for _, o := range all {
+		if _, ok := loopDrift[o.Func]; ok && o.Status != "discharged" && (o.Kind == "inv-init" || o.Kind == "inv-pres" || o.Kind == "dec") {
+			invBroken[o.Func] = true
+		}
+	}
+	for _, r := range results {
+		if ld, ok := loopDrift[r.Unit]; ok {
+			if invBroken[r.Unit] || r.Err != "" {
+				drift = append(drift, r.Unit+": "+strings.Join(ld, "; ")+" (the recorded loop annotations do not verify on the new loop)")
+			} else {
+				fmt.Printf("NOTE: property=%s %s: loop header changed (%s); the recorded invariants still verify on it, the function is decided as usual\n", *prop, r.Unit, strings.Join(ld, "; "))
+			}
+		}
+	}
 	for _, o := range all {
 		solverTime += o.Res.Time
+		if invBroken[o.Func] {
+			if o.Status == "discharged" {
+				continue
+			}
+			unchecked = append(unchecked, o.Name+": contract drift (loop annotations do not fit the changed loop)")
+			continue
+		}
 		if reason, ok := baseline[o.Name]; ok && o.Status == "undecided" {
 			// a listed slow obligation that ran out of solver budget (loaded machine): undecided in
 			// this run, never a violation; a refutation (sat) of the same obligation still is one
